@@ -78,6 +78,26 @@ fn main() {
             println!("counters: {:?}", o.counters);
             0
         }
+        "sim" => {
+            // ksim sim '<cfg text>' 'd:a t:10 u:a vk:name:tap' [blocking]
+            runner::install_panic_hook();
+            let cfg = args.get(2).cloned().unwrap_or_default();
+            let script = args.get(3).cloned().unwrap_or_default();
+            let mode = if args.get(4).map(|s| s == "blocking").unwrap_or(false) { exec_a::Mode::Blocking } else { exec_a::Mode::Ticking };
+            let ops = ops::parse_script(&script);
+            match exec_a::Stepper::new_filtered(&cfg, &[], mode) {
+                Ok(mut st) => {
+                    st.run_ops(&ops);
+                    println!("{}", trace::outs_short(&st.trace.outs));
+                    println!("idle={} can_block={}", st.k.is_idle(), st.k.can_block_update_idle_waiting(1));
+                    0
+                }
+                Err(e) => {
+                    println!("parse error: {e}");
+                    1
+                }
+            }
+        }
         "rejects" => {
             // histogram of parser rejection messages for generated cases (generator tuning aid)
             let prop = args.get(2).cloned().unwrap_or_default();
